@@ -101,7 +101,7 @@ def c04(run, model):
 
 
 def c12(run, model):
-    _mol_run(run, model, {"K5", "C12"}, 0, 0)
+    _mol_run(run, model, {"K5", "C12"}, 0, 0, exhaustive=(4, 4), extra_stream=near_misses)
 
 
 def c01(run, model):
@@ -113,11 +113,11 @@ def c02(run, model):
 
 
 def c03(run, model):
-    _mol_run(run, model, {"K5", "K7", "C03"}, 0, 0, exhaustive=(3, 4))
+    _mol_run(run, model, {"K5", "K7", "C03"}, 0, 0, exhaustive=(4, 5), extra_stream=near_misses)
 
 
 def c05(run, model):
-    _mol_run(run, model, {"K7", "C05"}, 0, 0, exhaustive=(3, 4))
+    _mol_run(run, model, {"K7", "C05"}, 0, 0, exhaustive=(4, 5), extra_stream=near_misses)
 
 
 def label_variants(am, rng):
@@ -171,8 +171,7 @@ def near_misses(rng):
     n, e = gens.comb(4)
     for i in range(8):
         yield AM([6] * 8, e, {}, {i: 2}, "nearmiss:comb4-rad")
-    for am in gens.cfi_files(4):
-        yield am
+    # (CFI benchmark graphs are deliberately not used here: bliss may need unbounded time on them, see DESIGN 9.2)
 
 
 NOT_CLAIMED = {}
